@@ -133,6 +133,11 @@ def cond_facts(cond: tuple | None, classify: Callable[[ast.AST], str | None]) ->
                 return
             return
         k = classify(e)
+        if k is None and isinstance(e, ast.Compare) and len(e.ops) == 1 and isinstance(e.ops[0], (ast.NotEq, ast.NotIn, ast.IsNot, ast.LtE, ast.GtE)):
+            # `a is not b` is `not (a is b)`: classify the positive spelling
+            pos = {ast.NotEq: ast.Eq, ast.NotIn: ast.In, ast.IsNot: ast.Is, ast.LtE: ast.Gt, ast.GtE: ast.Lt}[type(e.ops[0])]
+            go(ast.copy_location(ast.Compare(left=e.left, ops=[pos()], comparators=e.comparators), e), not p)
+            return
         if k is not None:
             if k.startswith("!"):
                 out.append((k[1:], not p))
